@@ -211,6 +211,18 @@ def gridContentsToAscii (k : Kind) (labels : Labels) : Option AMap :=
 /-- `__str__` succeeds: lines exist and there is one offset per line -/
 def printable (m : AMap) : Bool := !m.lines.isEmpty && m.offsets.length == m.lines.length
 
+/-- `gridBlueprint._getGridSize`: extent of a key set along i and j (both ends included) -/
+def gridSize (keys : List Cell) : Int × Int :=
+  (maxD 0 (keys.map (·.1)) - minD 0 (keys.map (·.1)) + 1, maxD 0 (keys.map (·.2)) - minD 0 (keys.map (·.2)) + 1)
+
+/-- `GridBlueprint._readGridContentsLattice` for a full-domain Cartesian map: the offset `int(-nx / 2), int(-ny / 2)`
+comes from the extent of ALL keys of the map (placeholders included), placeholders are then skipped -/
+def cartCentre (labels : Labels) : Labels :=
+  let sz := gridSize (labels.map (·.1))
+  let io := -(sz.1 / 2)
+  let jo := -(sz.2 / 2)
+  (labels.filter (fun p => p.2 != PLACEHOLDER)).map (fun p => ((p.1.1 + io, p.1.2 + jo), p.2))
+
 /-- contents without placeholder entries (what `GridBlueprint` keeps) -/
 def dataOf (labels : Labels) : Labels := labels.filter (fun p => p.2 != PLACEHOLDER)
 
